@@ -38,6 +38,8 @@ def cases(tier, seed):
             c = dict(row)
             c.update(tier=tier, id=f'{row["kind"]}-{rep}-{i}', seed=hash_seed(seed, 'C06', rep, i))
             out.append(c)
+    # k_from_tensor (mps_from_tensor through the SVD contract stub) is NOT registered: decided in seconds for blocks up to 2x2, but larger
+    # blocks time out or exhaust the path budget (sign / ordering forks of chained SVDs) -- an unstable check is no check; kept for dbg.py
     return out
 
 
@@ -267,6 +269,49 @@ def k_mpo_measure(ctx, spec):
         ctx.eq([mps.measure_mpo(a, [H, G], b)], [ref2], '<a|(H+G)|b> with a list of MPOs')
         ctx.eq([mps.measure_mpo(a, H + G, b)], [ref2], '<a|(H+G)|b> with the sum MPO')
     return {'N': N, 'fam': FAM_SYM[spec['famsym']]}
+
+
+def k_from_tensor(ctx, spec):
+    """mps_from_tensor / mpo_from_tensor (chain of SVDs through the LAPACK contract stub, non-binding truncation options): the MPS/MPO
+    represents exactly the tensor it was made from"""
+    import yastn
+    import yastn.tn.mps as mps
+    rng = rng_of(spec)
+    fam, symn = FAM_SYM[spec['famsym']]
+    cfg0 = cat.make_config('dense')
+    ops = make_ops(fam, symn, backend=cfg0.backend)
+    ph = ops.space()
+    d = sum(ph.D)
+    nr = spec['nr_phys']
+    N = spec['N']
+    if d ** (N * nr) > 64 or (d > 2 and N * nr > 2):
+        ctx.skip('too large')
+    cfg = ops.config
+    legs = []
+    for _ in range(N):
+        legs += [ph] if nr == 1 else [ph, ph.conj()]
+    T = None
+    cands = [None] if cfg.sym.NSYM == 0 else [tuple(cfg.sym.zero())] + charges_for(ops, N)
+    rng.shuffle(cands)
+    for n in cands:
+        try:
+            t = yastn.zeros(config=cfg, legs=legs, n=n)
+        except yastn.YastnError:
+            continue
+        if t.size and t.size <= 40:
+            T = t
+            break
+    if T is None:
+        ctx.skip('no admissible tensor')
+    ctx.fill(T, 't', 'real')
+    if ctx.mode == 'sym':
+        # every singular value met is 0 or above the default 1e-14 cut-off is not needed: non-binding options are passed explicitly
+        pass
+    psi = mps.mps_from_tensor(T, nr_phys=nr, canonize=spec['canonize'], opts_svd={'D_total': 4096})
+    ctx.check(psi.N == N and psi.nr_phys == nr, 'mps_from_tensor: N sites')
+    X = dense_chain(psi, ph)
+    ctx.eq(X, reassemble(T, legs), f'mps_from_tensor(nr_phys={nr}, canonize={spec["canonize"]}) represents the tensor')
+    return {'fam': fam, 'sym': symn, 'N': N, 'nr_phys': nr}
 
 
 def k_pbc(ctx, spec):
